@@ -5,6 +5,9 @@ import (
 )
 
 func runC04(c *Check, w *World) {
+	if w.Cfg.Name == CfgNative.Name {
+		ruleJSExportsDirect(c, "R04.JS", "validateTOTP")
+	}
 	tb := NewTB(w)
 	ef := NewEffects(tb)
 	iv := newIVWithTables(w, tb, ef)
